@@ -30,8 +30,12 @@ CONFIG = {
         "jobs": [bufstep("C02", 24000, 800000)],
     },
     "C03": {
-        "rule": BUF_MODEL + "non-trivial = >=1 eviction while a consumer was open AND (a lagging consumer was observed OR uncommitted reads existed at eviction time); distinct = hash of the executed op trace.",
-        "jobs": [bufstep("C03", 24000, 800000)],
+        "rule": BUF_MODEL + "non-trivial = >=1 eviction while a consumer was open AND (a lagging consumer was observed OR uncommitted reads existed at eviction time); distinct = hash of the executed op trace. "
+                "Plus a pure engine over DefaultCleaner/FixedBufferCleaner: size in [0,2^20], 0-8 offsets mixing negative/zero/below/equal/beyond size/huge, every (max,target) in [-2,16] "
+                "against an independent specification and metamorphic relations (permutation, added negative offsets); non-trivial = offsets contain >=2 of {negative, zero, ==size, >size, huge}.",
+        "jobs": [bufstep("C03", 24000, 800000),
+                 {"name": "cleaner_pure", "test": "TestC03CleanerPure", "checks": {"quick": 60000, "thorough": 3000000},
+                  "shards": {"quick": 2, "thorough": 8}}],
     },
     "C04": {
         "rule": BUF_MODEL + "non-trivial = a state change placed strictly inside a cooldown window that was later followed by an eviction, or values freed by closing the slowest consumer; distinct = hash of the executed op trace.",
